@@ -14,6 +14,8 @@ CONSTANTS
   Steps <- MCSteps
   Algo = "lstsq"
   Garbage = 1000
+  Acts = {"remove", "setitem", "clear", "reload"}
+  GivenSets <- NoGiven
   Record = TRUE
   Temps = {200, 1000}
 INVARIANT NormalEquations
